@@ -36,8 +36,12 @@ package main
 //@   modifies *
 
 // ---- server timeouts (C03): finite and positive for every accepted configuration (0 means the default)
+// C19 "requests in flight when the signal arrives are allowed to finish": the server Helios builds ties no request
+// context to the start of a shutdown - no server-wide base/connection context, no shutdown hook (a hook that cancels a
+// base context aborts every proxied exchange the moment Shutdown begins)
 //@ func createHTTPServer
-//@   props C03
+//@   props C03 C19
+//@   ensures in_flight_requests_are_not_cancelled_when_shutdown_starts@C19: result.BaseContext == nil && result.ConnContext == nil && result.shutdownHooks == 0
 //@   requires cfg != nil && 0 <= cfg.Server.Timeouts.Read && cfg.Server.Timeouts.Read <= 9223372036 && 0 <= cfg.Server.Timeouts.Write && cfg.Server.Timeouts.Write <= 9223372036
 //@   requires 0 <= cfg.Server.Timeouts.Idle && cfg.Server.Timeouts.Idle <= 9223372036
 //@   ensures timeouts_positive: result != nil && result.ReadTimeout > 0 && result.WriteTimeout > 0 && result.IdleTimeout > 0
